@@ -15,8 +15,7 @@ MCConfigs == {[n |-> n, block |-> b, retries |-> r, preload |-> Modes[m].p, rele
 
 \* ---- alphabets ----
 ErrSyms == {"c_refused", "c_timeout", "s_oserr", "r_timeout", "r_reset", "r_eof", "r_garbage", "r_ssl"}
-MCAll   == (ConnectSyms \cup SendSyms \cup RecvSyms \cup ReplySyms) \ {"chunk_trunc"}
-MCAllCT == ConnectSyms \cup SendSyms \cup RecvSyms \cup ReplySyms
+MCAll   == ConnectSyms \cup SendSyms \cup RecvSyms \cup ReplySyms
 \* one representative per class (used for later attempts / later requests in the quick tier)
 MCReps  == {"c_refused", "c_boom", "s_epipe", "s_oserr", "r_timeout", "r_eof", "r_boom",
             "ok_ka", "ok_close", "s503_ka", "r302_ka", "short", "b_boom"}
@@ -36,7 +35,7 @@ MCMutDropped == {"M_DroppedNotClosed"}
 \* ---- sharding ----
 SymSeq == <<"c_refused", "c_timeout", "c_boom", "s_epipe", "s_reset", "s_oserr", "s_boom", "r_timeout", "r_reset",
             "r_eof", "r_garbage", "r_ssl", "r_boom", "ok_ka", "ok_close", "s503_ka", "s503_close", "r302_ka",
-            "r302_close", "short", "chunk_trunc", "b_boom", "b_reset", "b_timeout", "x_stale">>
+            "r302_close", "short", "b_boom", "b_reset", "b_timeout", "x_stale">>
 SymIdx(s) == CHOOSE i \in 1..Len(SymSeq) : SymSeq[i] = s
 RIdx(r) == CASE r = "F" -> 0 [] r = "0" -> 1 [] r = "1" -> 2 [] OTHER -> 3
 CfgIdx(c) == RIdx(c.retries) + 5 * (IF c.preload THEN 1 ELSE 0) + 3 * (IF c.release THEN 1 ELSE 0)
